@@ -610,7 +610,7 @@ func c09FileHex(c *blob.DiskCache, d blob.Digest) string {
 	return zzverif.Hex(b)
 }
 
-func c09PullCase(t *testing.T, out *zzverif.Out, rng *zzverif.Rng, dir string, tag string, linkShortcut bool) {
+func c09PullCase(t *testing.T, out *zzverif.Out, rng *zzverif.Rng, dir string, tag string, linkShortcut, verify bool) {
 	g := &c09Gen{rng: rng, out: out, cuts: map[string][]int64{}, manifests: map[string]*c09Manifest{}}
 	g.thr = int64(zzverif.Pick(rng, []int{2, 3, 4, 6}))
 	g.streams = zzverif.Pick(rng, []int{1, 1, 2, 2, 3, -1, -1})
@@ -891,7 +891,11 @@ func c09PullCase(t *testing.T, out *zzverif.Out, rng *zzverif.Rng, dir string, t
 	if linkShortcut {
 		sc = 1
 	}
-	op := fmt.Sprintf("pull %d %d %d %d %s", g.thr, g.streams, sc, len(ops), strings.Join(ops, " "))
+	vf := 0
+	if verify {
+		vf = 1
+	}
+	op := fmt.Sprintf("pull %d %d %d %d %d %s", g.thr, g.streams, sc, vf, len(ops), strings.Join(ops, " "))
 	out.Case(op, strings.Join(impls, " | "))
 	seenKind := map[string]bool{}
 	for _, l := range l2s {
@@ -924,6 +928,31 @@ func c09ProbeLinkShortcut(t *testing.T) bool {
 	}
 	got, _ := os.ReadFile(filepath.Join(c09DirOf(c), "manifests", "example.com", "library", "p", "latest"))
 	return bytes.Equal(got, a)
+}
+
+type c09ProbeRT struct{}
+
+func (c09ProbeRT) RoundTrip(req *http.Request) (*http.Response, error) {
+	abcd := []byte("abcd")
+	switch {
+	case strings.Contains(req.URL.Path, "/manifests/"):
+		return c09Resp(req, 200, c09Str(fmt.Sprintf(`{"layers":[{"digest":"%s","size":4}]}`, c09Dig(abcd))), nil), nil
+	case strings.Contains(req.URL.Path, "/chunksums/"):
+		body := fmt.Sprintf("%s 0-1\n%s 0-1\n", c09Dig(abcd[:2]), c09Dig(abcd[:2]))
+		return c09Resp(req, 200, c09Str(body), map[string]string{"Content-Location": "http://blobs.example.com/v2/library/x/blobs/" + c09Dig(abcd).String()}), nil
+	}
+	return c09Resp(req, 200, c09Str("ab"), nil), nil
+}
+
+// c09ProbeVerifyBeforeLink runs the F10b scenario (4-byte layer, plan `ab 0-1` twice) on the real
+// client: the pinned tree reports success; a tree that verifies layers before Link does not.
+func c09ProbeVerifyBeforeLink(t *testing.T) bool {
+	c, err := blob.Open(t.TempDir())
+	if err != nil {
+		t.Fatal(err)
+	}
+	rc := &Registry{Cache: c, HTTPClient: &http.Client{Transport: c09ProbeRT{}}, MaxStreams: 1, ChunkingThreshold: 2}
+	return rc.Pull(context.Background(), "http://example.com/library/probe") != nil
 }
 
 func c09DirOf(c *blob.DiskCache) string {
@@ -962,6 +991,10 @@ func TestVerifC09(t *testing.T) {
 	if shortcut {
 		out.Count("link_same_size_shortcut_present")
 	}
+	verify := c09ProbeVerifyBeforeLink(t)
+	if verify {
+		out.Count("verify_before_link_present")
+	}
 	root := zzverif.NewRng(seed)
 	base := t.TempDir()
 	pullRoot := root.Fork()
@@ -974,7 +1007,7 @@ func TestVerifC09(t *testing.T) {
 			continue
 		}
 		dir := filepath.Join(base, fmt.Sprintf("p%d", i))
-		c09PullCase(t, out, rng, dir, fmt.Sprintf("seed=%d kind=pull idx=%d", seed, i), shortcut)
+		c09PullCase(t, out, rng, dir, fmt.Sprintf("seed=%d kind=pull idx=%d", seed, i), shortcut, verify)
 		os.RemoveAll(dir)
 		out.Count("cases")
 		out.Count("pull_cases")
